@@ -123,11 +123,14 @@ class EnumEval:
             return 'return'
         if k == 'break':
             return 'break'
+        if k == 'continue':
+            return 'continue'       # the rest of the (loop) body is skipped for this kind
         if k == 'if':
             self._collect(s['c'])
             v = self.cond(s['c'], K, env, depth)
             if v is None:
-                if self._has_effect(s['t']) or self._has_effect(s.get('e')):
+                jumps = any(x['k'] in ('return', 'break', 'continue') for y in (s['t'], s.get('e')) if y is not None for x in walk_stmts(y))
+                if self._has_effect(s['t']) or self._has_effect(s.get('e')) or jumps:
                     raise Unsupported('condition %s does not depend on the classified kind only' % show(s['c'])[:80])
                 return 'next'
             return self._exec(s['t'] if v else s.get('e'), K, env, depth)
